@@ -96,31 +96,69 @@ func (r *rec[T]) Add(ctx context.Context, k string, v T) {
 	r.mirror.Add(k, v)
 }
 
-// probe asks the real cache directly (this disturbs LRU recency, so only at the very end of a
-// trace) and compares its contents with the mirror.
-func (r *rec[T]) probe(universe []string) {
-	keys := map[string]bool{}
-	for _, k := range universe {
-		keys[k] = true
+// survivors asks the REAL cache directly, after n fresh dummy entries have been added to it, which
+// of the candidate keys it still holds. This disturbs recency, so it is the last thing done to a
+// server. Get never evicts, so the order of the questions does not matter.
+func (r *rec[T]) survivors(universe []string, n int, dummy T) map[string]T {
+	ctx := context.Background()
+	for j := 1; j <= n; j++ {
+		r.inner.Add(ctx, fmt.Sprintf("\x00dummy-%d", j), dummy)
 	}
-	for _, k := range r.mirror.Keys {
-		keys[k] = true
-	}
-	sorted := make([]string, 0, len(keys))
-	for k := range keys {
-		sorted = append(sorted, k)
-	}
-	sort.Strings(sorted)
-	// ask for mirror-present keys least-recent first so that probing cannot itself evict anything
-	for _, k := range sorted {
-		v, ok := r.inner.Get(context.Background(), k)
-		mv, mok := r.mirror.Peek(k)
-		if ok != mok || (ok && !r.same(v, mv)) {
-			r.problems = append(r.problems, Problem{
-				Sig:  "cache-contents-differ-from-policy|" + r.label,
-				What: fmt.Sprintf("%s cache holds (%s,%v) for %s at the end of the trace, reference policy says (%s,%v)", r.label, r.show(v), ok, nick(k), r.show(mv), mok)})
+	out := map[string]T{}
+	ask := func(k string) {
+		if v, ok := r.inner.Get(ctx, k); ok {
+			out[k] = v
 		}
 	}
+	for _, k := range universe {
+		ask(k)
+	}
+	for _, k := range r.mirror.Keys {
+		ask(k)
+	}
+	return out
+}
+
+// observed reconstructs the real cache state from survivors[i] = keys still present after i fresh
+// Adds: contents = survivors[0]; for a bounded cache the key that disappears first is the least
+// recent one, and so on. The result is an `ordered` holding the REAL contents and order.
+func observed[T any](label string, cap int, surv []map[string]T) (*ordered[T], []Problem) {
+	o := newOrdered[T](cap)
+	var ps []Problem
+	keys := make([]string, 0, len(surv[0]))
+	for k := range surv[0] {
+		keys = append(keys, k)
+	}
+	sort.Strings(keys)
+	gone := map[string]int{}
+	for _, k := range keys {
+		o.Val[k] = surv[0][k]
+		gone[k] = len(surv) // never
+		for i := 1; i < len(surv); i++ {
+			if _, ok := surv[i][k]; !ok {
+				gone[k] = i
+				break
+			}
+		}
+		if cap > 0 && gone[k] > cap {
+			ps = append(ps, Problem{Sig: "cache-keeps-entry-beyond-capacity|" + label,
+				What: fmt.Sprintf("%s: %s is still present after %d fresh Adds to a cache of capacity %d", label, nick(k), cap, cap)})
+		}
+	}
+	if cap > 0 && len(keys) > cap {
+		ps = append(ps, Problem{Sig: "cache-keeps-entry-beyond-capacity|" + label,
+			What: fmt.Sprintf("%s: %d entries in a cache of capacity %d", label, len(keys), cap)})
+	}
+	// most recent first = disappears last
+	sort.SliceStable(keys, func(a, b int) bool { return gone[keys[a]] > gone[keys[b]] })
+	for i := 1; i < len(keys) && cap > 0; i++ {
+		if gone[keys[i]] == gone[keys[i-1]] {
+			ps = append(ps, Problem{Sig: "cache-evicts-two-entries-for-one-add|" + label,
+				What: fmt.Sprintf("%s: %s and %s disappear with the same fresh Add", label, nick(keys[i-1]), nick(keys[i]))})
+		}
+	}
+	o.Keys = keys
+	return o, ps
 }
 
 type Problem struct {
@@ -147,7 +185,8 @@ type Step struct {
 }
 
 type Result struct {
-	Key      string
+	Key       string // real state (observed), the BFS state key
+	MirrorKey string // reference policy applied to the cache calls gqlgen made
 	Steps    []Step
 	Problems []Problem
 }
@@ -229,7 +268,8 @@ func buildRequest(e Event) *http.Request {
 		if ext != "" {
 			v.Set("extensions", ext)
 		}
-		return httptest.NewRequest("GET", "/query?"+v.Encode(), nil)
+		r, _ := http.NewRequest("GET", "/query?"+v.Encode(), nil)
+		return r
 	}
 	var parts []string
 	if e.Text != "" {
@@ -239,7 +279,7 @@ func buildRequest(e Event) *http.Request {
 	if ext != "" {
 		parts = append(parts, `"extensions":`+ext)
 	}
-	r := httptest.NewRequest("POST", "/query", strings.NewReader("{"+strings.Join(parts, ",")+"}"))
+	r, _ := http.NewRequest("POST", "/query", strings.NewReader("{"+strings.Join(parts, ",")+"}"))
 	r.Header.Set("Content-Type", "application/json")
 	return r
 }
@@ -248,7 +288,13 @@ func (w *worker) send(s *server, e Event) Obs {
 	w.hs.Log.Reset()
 	rr := httptest.NewRecorder()
 	s.srv.ServeHTTP(rr, buildRequest(e))
-	o := Obs{Status: rr.Code, Body: rr.Body.String(), Log: w.hs.Log.Snapshot()}
+	o := Obs{Status: rr.Code, Body: rr.Body.String()}
+	// only the execution events count (handschema may log more, e.g. payloads)
+	for _, l := range w.hs.Log.Snapshot() {
+		if strings.HasPrefix(l, "exec:") || strings.HasPrefix(l, "rootfield:") || strings.HasPrefix(l, "resolver:") {
+			o.Log = append(o.Log, l)
+		}
+	}
 	var resp struct {
 		Data   json.RawMessage `json:"data"`
 		Errors []struct {
@@ -385,7 +431,7 @@ func (w *worker) runTrace(cfg Config, evs []Event, universe []string) Result {
 		}
 		res.Steps = append(res.Steps, Step{Event: e.Name, Pred: pred, Obs: o, State: after, Model: m.Key()})
 	}
-	res.Key = s.stateKey()
+	res.MirrorKey = s.stateKey()
 	last := "initial"
 	if len(evs) > 0 {
 		last = evs[len(evs)-1].Kind
@@ -393,15 +439,58 @@ func (w *worker) runTrace(cfg Config, evs []Event, universe []string) Result {
 	end := func(sig, format string, a ...any) {
 		res.Problems = append(res.Problems, Problem{Sig: sig + "|" + last, What: fmt.Sprintf(format, a...), Step: len(evs) - 1})
 	}
+	// Observe the REAL state reached. Contents: ask the real caches. Recency order of the bounded
+	// ones: replay the same history on further fresh servers and see what i = 1..cap fresh Adds push
+	// out. (The recorder's mirror alone would only show what the reference policy would hold.)
+	rounds := 0
+	if cfg.ApqCap > 0 {
+		rounds = cfg.ApqCap
+	}
+	if cfg.QC && cfg.QCCap > rounds {
+		rounds = cfg.QCCap
+	}
+	survA := make([]map[string]string, rounds+1)
+	survQ := make([]map[string]*ast.QueryDocument, rounds+1)
+	for i := 0; i <= rounds; i++ {
+		si := s
+		if i > 0 {
+			si = w.newServer(cfg)
+			for _, e := range evs {
+				w.send(si, e)
+			}
+			if si.stateKey() != res.MirrorKey {
+				end("replay-not-deterministic", "replay %d of the same history recorded %s instead of %s", i, si.stateKey(), res.MirrorKey)
+			}
+		}
+		survA[i] = si.apq.survivors(universe, i, "dummy")
+		if si.qc != nil {
+			survQ[i] = si.qc.survivors(universe, i, &ast.QueryDocument{})
+		}
+	}
+	realA, ps := observed(s.apq.label, cfg.ApqCap, survA)
+	var realQ *ordered[*ast.QueryDocument]
+	if s.qc != nil {
+		var psq []Problem
+		realQ, psq = observed(s.qc.label, cfg.QCCap, survQ)
+		ps = append(ps, psq...)
+	}
+	res.Key = stateKey(realA, realQ)
+	if res.Key != res.MirrorKey {
+		ps = append(ps, Problem{Sig: "cache-state-differs-from-policy|" + s.apq.label,
+			What: fmt.Sprintf("real caches hold %s; the reference policy applied to the calls gqlgen made gives %s", res.Key, res.MirrorKey)})
+	}
+	if mk := m.Key(); res.Key != mk {
+		end("state-differs-from-model", "real state %s, model state %s", res.Key, mk)
+	}
 	// invariant on the state reached: every entry binds lower-case-hex sha256(text) to text
-	for _, k := range s.apq.mirror.Keys {
-		if v := s.apq.mirror.Val[k]; sha(v) != k {
+	for _, k := range realA.Keys {
+		if v := realA.Val[k]; sha(v) != k {
 			end("cache-entry-key-is-not-sha256-of-its-text", "APQ cache entry %s -> %s (key %q, text %q)", nick(k), nick(v), k, v)
 		}
 	}
 	if direct := s.directEntries(); direct != nil {
-		if !reflect.DeepEqual(direct, s.apq.mirror.Val) {
-			end("cache-contents-differ-from-policy|"+s.apq.label, "real map %v, mirror %v", direct, s.apq.mirror.Val)
+		if !reflect.DeepEqual(direct, realA.Val) {
+			end("map-contents-differ-from-answers|"+s.apq.label, "real map %v, answers to Get %v", direct, realA.Val)
 		}
 		for k, v := range direct {
 			if sha(v) != k {
@@ -410,17 +499,15 @@ func (w *worker) runTrace(cfg Config, evs []Event, universe []string) Result {
 		}
 	}
 	// query-document cache: every entry is the parse of its key
-	if s.qc != nil {
-		for _, k := range s.qc.mirror.Keys {
+	if realQ != nil {
+		for _, k := range realQ.Keys {
 			fresh, err := parser.ParseQuery(&ast.Source{Input: k})
-			if err != nil || canonDoc(fresh) != canonDoc(s.qc.mirror.Val[k]) {
+			if err != nil || canonDoc(fresh) != canonDoc(realQ.Val[k]) {
 				end("query-cache-entry-is-not-the-parse-of-its-key", "query cache key %s holds a different document", nick(k))
 			}
 		}
-		s.qc.probe(universe)
 	}
-	s.apq.probe(universe)
-	for _, p := range append(s.apq.problems, qcProblems(s)...) {
+	for _, p := range append(append(ps, s.apq.problems...), qcProblems(s)...) {
 		p.Sig += "|" + last
 		p.Step = len(evs) - 1
 		res.Problems = append(res.Problems, p)
